@@ -175,7 +175,7 @@ func runScript(script []string, fl flags) *runResult {
 		case "cput", "cget", "cfm", "cacput", "cacget":
 			st.reply = w.execClient(line)
 			mutating = f[0] == "cput" || f[0] == "cacput"
-		case "bigget", "bigfront", "stallget":
+		case "bigget", "bigfront", "stallget", "bigput":
 			// harness-only: judged by the oracle, not sent to the model
 			if f[0] == "stallget" {
 				pieces, err1 := strconv.Atoi(f[1])
